@@ -216,6 +216,9 @@ pub(crate) struct EventsInner<const N: usize> {
     /// The first assigned event number is 1; `0` is reserved as the "no events seen yet"
     /// sentinel used by fresh subscriptions.
     next_event_number: EventNumber,
+    /// The event number at which the next epoch has to be persisted - i.e. the epoch
+    /// currently held in durable storage, which a restart resumes from.
+    next_epoch_at: EventNumber,
 }
 
 impl<const N: usize> EventsInner<N> {
@@ -225,6 +228,7 @@ impl<const N: usize> EventsInner<N> {
             buf_info: EventsBuf::new(),
             buf_critical: EventsBuf::new(),
             next_event_number: 1,
+            next_epoch_at: 1,
         }
     }
 
@@ -234,6 +238,7 @@ impl<const N: usize> EventsInner<N> {
             buf_info <- EventsBuf::init(),
             buf_critical <- EventsBuf::init(),
             next_event_number: 1,
+            next_epoch_at: 1,
         })
     }
 
@@ -242,6 +247,7 @@ impl<const N: usize> EventsInner<N> {
         self.buf_info.reset();
         self.buf_critical.reset();
         self.next_event_number = 1;
+        self.next_epoch_at = 1;
     }
 
     /// Remove persisted state from the given key-value store.
@@ -279,6 +285,8 @@ impl<const N: usize> EventsInner<N> {
     /// Restore events from previously persisted state.
     fn load(&mut self, data: &[u8]) -> Result<(), Error> {
         self.next_event_number = TLVElement::new(data).u64()?;
+        // Nothing beyond the loaded epoch is covered yet: the first event persists the next one
+        self.next_epoch_at = self.next_event_number;
 
         Ok(())
     }
@@ -334,17 +342,21 @@ impl<const N: usize> EventsInner<N> {
     {
         let event_number = self.next_event_number;
 
-        if event_number == 1 || event_number.is_multiple_of(EVENT_NUMBER_EPOCH_SIZE) {
+        if event_number == self.next_epoch_at {
             // We're at an epoch start boundary. Therefore, we need to persist the new epoch to storage
             // so we don't lose it on reboot and end up reusing event numbers.
-            persist.store_tlv(
-                EVENT_EPOCH_KEY,
-                if event_number == 1 {
-                    EVENT_NUMBER_EPOCH_SIZE
-                } else {
-                    event_number.wrapping_add(EVENT_NUMBER_EPOCH_SIZE).max(1)
-                },
-            )?;
+            //
+            // (The boundary is tracked explicitly rather than derived from the event number being a
+            // multiple of the epoch size, which no longer holds once the number has wrapped around.)
+            let next_epoch = if event_number == 1 {
+                EVENT_NUMBER_EPOCH_SIZE
+            } else {
+                event_number.wrapping_add(EVENT_NUMBER_EPOCH_SIZE).max(1)
+            };
+
+            persist.store_tlv(EVENT_EPOCH_KEY, next_epoch)?;
+
+            self.next_epoch_at = next_epoch;
         }
 
         self.next_event_number = event_number.wrapping_add(1).max(1);
